@@ -1,4 +1,5 @@
 import IoraModel.Lemmas.AssetsFuel
+import IoraModel.Lemmas.AssetsRead
 /-!
 C20: from the walk lemmas to the lookups — what `status`, `canonical`, `readFile` return on canonical absolute paths,
 the open-time containment lemma (leaf swap), and the analysis of `weakly_canonical`.
@@ -71,8 +72,8 @@ theorem readFile_at_loc (fs : Fs) (L : Loc) (d : Bytes) (hL : LocOK L)
     (hpar : fs.get L.tail = some .dir) (h : readFile fs (renderLoc L) = some d) : fs.get L = some (.file d) := by
   by_cases hne : L = []
   · subst hne
-    simp [readFile, kwalk, renderLoc, cstr, joinSlash, SLASH, PATH_MAX, comps, splitSlash, isAbs, walkFuel, walk_succ, walkStep] at h
-  unfold readFile at h
+    simp [readFile_eq, kwalk, renderLoc, cstr, joinSlash, SLASH, PATH_MAX, comps, splitSlash, isAbs, walkFuel, walk_succ, walkStep] at h
+  rw [readFile_eq] at h
   have hnf : (!Gen.Assets.openNoFollow) = false := by decide
   rw [hnf] at h
   split at h
